@@ -173,12 +173,16 @@ func (s *rateSubject) request(src string, n int) rout {
 	return o
 }
 
-// replayFlat runs a concretised timeline on a fresh subject; keep decides which requests are sent.
-func replayFlat(rc rateCfg, flat []rstep, keep func(i int, st rstep) bool) map[int]rout {
+// replayFlat runs a concretised timeline on a fresh subject; keep decides which requests are sent;
+// forget lists the timeline positions at which the limiter forgets everything (the source was evicted).
+func replayFlat(rc rateCfg, flat []rstep, keep func(i int, st rstep) bool, forget map[int]bool) map[int]rout {
 	freeze()
 	s := newRateSubject(rc)
 	res := map[int]rout{}
 	for i, st := range flat {
+		if forget[i] {
+			s = newRateSubject(rc)
+		}
 		if st.adv > 0 {
 			advance(time.Duration(st.adv) * rc.tick)
 			continue
@@ -189,6 +193,46 @@ func replayFlat(rc rateCfg, flat []rstep, keep func(i int, st rstep) bool) map[i
 		res[i] = s.request(st.src, st.n)
 	}
 	return res
+}
+
+// evictions applies the property's rule to the timeline: when a source that is not tracked arrives and the limiter
+// already tracks `cap` sources, the tracked source nearest to expiry (= least recently seen, in whole seconds) is
+// forgotten. Returns for every source the positions at which it is forgotten, and the position of the first tie
+// (several candidates equally near to expiry: the property does not say which one), or -1.
+func evictions(rc rateCfg, flat []rstep) (map[string]map[int]bool, int) {
+	last := map[string]int{} // source -> second of its last request
+	out := map[string]map[int]bool{}
+	now, tie := 0, -1
+	for i, st := range flat {
+		if st.adv > 0 {
+			now += st.adv
+			continue
+		}
+		if st.src == "" {
+			continue
+		}
+		sec := now / rc.tps
+		if _, ok := last[st.src]; !ok && len(last) >= rc.cap {
+			victim, min, n := "", 1<<62, 0
+			for k, v := range last {
+				if v < min {
+					victim, min, n = k, v, 1
+				} else if v == min {
+					n++
+				}
+			}
+			if n > 1 && tie < 0 {
+				tie = i
+			}
+			delete(last, victim)
+			if out[victim] == nil {
+				out[victim] = map[int]bool{}
+			}
+			out[victim][i] = true
+		}
+		last[st.src] = sec
+	}
+	return out, tie
 }
 
 func runRate(sc Scenario, tr *Trace, seed int64) {
@@ -260,15 +304,21 @@ func runRate(sc Scenario, tr *Trace, seed int64) {
 				srcs[st.src] = true
 			}
 		}
+		forget, tie := map[string]map[int]bool{}, -1
+		if boolOr(sc.Cfg, "overcap", false) {
+			forget, tie = evictions(rc, flat)
+		}
 		for src := range srcs {
-			for i, o := range replayFlat(rc, flat, func(_ int, st rstep) bool { return st.src == src }) {
-				solo[i] = o
+			for i, o := range replayFlat(rc, flat, func(_ int, st rstep) bool { return st.src == src }, forget[src]) {
+				if tie < 0 || i < tie {
+					solo[i] = o
+				}
 			}
 		}
 	}
 	nofl := map[int]rout{}
 	if boolOr(sc.Cfg, "nofl", false) {
-		nofl = replayFlat(rc, flat, func(i int, st rstep) bool { return !(st.flood && outs[i].out != "ok") })
+		nofl = replayFlat(rc, flat, func(i int, st rstep) bool { return !(st.flood && outs[i].out != "ok") }, nil)
 	}
 	cfg := M{"tps": rc.tps, "cap": rc.cap, "level": rc.level, "qualified": boolOr(sc.Cfg, "qualified", true)}
 	var rates []any
